@@ -67,6 +67,10 @@ type FloodConfig struct {
 	// MaxSeenCacheSize limits the seen cache size
 	MaxSeenCacheSize int
 
+	// MaxHops is the maximum number of hops a route advertisement may travel
+	// from its origin (routing.max_hops). Zero means no limit.
+	MaxHops int
+
 	// LocalDisplayName is the display name to include in route advertisements
 	LocalDisplayName string
 
@@ -259,6 +263,12 @@ func (f *Flooder) HandleRouteAdvertise(
 			// Plaintext - decode directly (normal case)
 			path, _ = protocol.DecodePath(encPath.Data)
 		}
+	}
+
+	// Enforce the hop limit: the path lists every agent the advertisement has
+	// passed through, origin included, so its length is our distance in hops.
+	if f.cfg.MaxHops > 0 && len(path) > f.cfg.MaxHops {
+		return false
 	}
 
 	// Convert protocol routes to routing entries (CIDR, domain, forward, and agent)
